@@ -110,6 +110,9 @@ CURATED = [
     # derivatives that are empty semantically but not syntactically (emptiness must be decided, not pattern-matched)
     ('comp', ('concat', C, ('union', 'eps', ('plus', 'allchar')))), ('inter', ('concat', C, C), ('concat', ('ref', 0), C)),
     ('comp', ('union', 'eps', ('plus', 'allchar'))), ('inter', ('concat', C, R), ('concat', ('ref', 0), ('comp', ('ref', 1)))),
+    # nullable left operand followed by a semantically empty right operand; loops over nullable bodies before a character
+    ('concat', ('star', C), ('inter', C, C)), ('concat', ('opt', C), ('inter', C, ('concat', C, C))),
+    ('concat', ('power', ('union', 'eps', C)), C), ('concat', ('plus', ('union', 'eps', C)), C),
     # start_char traps: semantically empty operands
     ('concat', R, ('inter', C, C)), ('inter', 'allchar', ('concat', C, C)), ('concat', ('inter', R, R), R), ('loop', ('inter', C, C)),
     ('concat', C, ('diff', R, ('ref', 1))), ('union', ('inter', C, C), C),
@@ -135,6 +138,7 @@ FORCE_QUICK = {
     'C03': ["plus(union(star(char),char))", "union(comp(char),comp(range))"],
     'C05': ["inter(plus(allchar),char)"],
     'C19': ["plus(union(star(char),char))"],
+    'C18': ["concat(star(char),inter(char,char))", "concat(power(union(eps,char)),char)", "concat(plus(union(eps,char)),char)"],
 }
 
 
@@ -146,7 +150,9 @@ def quick_list(prop, seed):
     out = []
     for sh in CURATED:
         c = costs.get(show(sh))
-        if c is None:
+        if show(sh) in FORCE_QUICK.get(prop, ()):
+            out.append(sh)
+        elif c is None:
             if nsym(sh) <= 1:
                 out.append(sh)
         elif c <= QUICK_CPU_CAP.get(prop, 40.0) or show(sh) in FORCE_QUICK.get(prop, ()):
